@@ -131,6 +131,9 @@ func reqOf(ctx context.Context) *Req {
 type App struct {
 	// LocalScheme is the scheme of this server's own IRIs ("" = https); see UseScheme.
 	LocalScheme string
+	// IDScheme, if set, is the scheme of the ids NewID mints (it may differ from the scheme the
+	// endpoints are served under, e.g. plain http behind a TLS-terminating proxy minting https ids).
+	IDScheme string
 	Store       map[string][]byte   // id -> canonical JSON
 	Inboxes     map[string][]string // inbox IRI -> activity ids, newest first
 	Outboxes    map[string][]string
